@@ -6,3 +6,4 @@ pub mod vmap;
 pub mod pathmodel;
 pub mod sink;
 pub mod fvec;
+pub mod bvec;
